@@ -101,6 +101,22 @@ func render(m *mirror, st *Step) rendered {
 		}
 		r.src = t.src + "[" + s + "]"
 		r.plan = planRead(t, st)
+	case "swap":
+		// v[i], v[j] = v[j], v[i]: both right side values are read before either target is assigned
+		if t.cls != "slice" || st.I == nil || st.J == nil || st.I.C != "abs" || st.J.C != "abs" {
+			return bad("invalid_step")
+		}
+		i, j := st.I.D, st.J.D
+		if i < 0 || j < 0 || i >= int64(ln) || j >= int64(ln) {
+			return bad("swap_out_of_range")
+		}
+		r.src = fmt.Sprintf("%s[%d], %s[%d] = %s[%d], %s[%d]", t.src, i, t.src, j, t.src, j, t.src, i)
+		r.plan = outcome{mutates: true, note: "swap_two_elements", apply: func(func() int) {
+			a := reflect.New(t.v.Type().Elem()).Elem()
+			a.Set(t.v.Index(int(i)))
+			t.v.Index(int(i)).Set(t.v.Index(int(j)))
+			t.v.Index(int(j)).Set(a)
+		}}
 	case "write":
 		s, ok := keyOrIdx()
 		if !ok || st.V == nil {
